@@ -5,6 +5,8 @@ frame_buffer; (O) the Spec decoder (`s-decode-all`) on the same bytes: the k-th 
 the k-th decoded frame (FIN, RSV, opcode, unmasked payload) or a protocol error for it (judged by C05),
 and the call after the last frame sees end of stream — so every frame was parsed from its true start.
 """
+import itertools
+
 import common
 from common import summarize
 import rx
@@ -107,6 +109,29 @@ def run(ctx):
         if not (outs[0].startswith(want[0]) and outs[1].startswith(want[1]) and outs[2] == "X:CLOSED"):
             ctx.violate("frame-equals-rfc-decoding", "long-stream-frame-not-yielded", {"op": line[:200] + "...", "frames": f"1300 x op {frames[0].op}, binary, text", "api": api},
                         want + ["X:CLOSED"], outs[:3], size=13000)
+
+    # the message-level calls over fragmented messages (every cut of short payloads into <= 3 fragments, empty fragments
+    # included, text with a code point split by a cut): FIN, opcode and payload of what is yielded equal what the independent
+    # decoder extracts and reassembles
+    frag_sessions, frag_meta = [], []
+    for data, op in ((b"", 1), (b"ab", 1), (b"abc", 2), ("h\u00e9\u20ac".encode(), 1), ("\U0001f600".encode(), 1)):
+        n = len(data)
+        for k in (2, 3):
+            for cuts in itertools.combinations_with_replacement(range(0, n + 1), k - 1):
+                pts = [0] + list(cuts) + [n]
+                frames = [F(op if i == 0 else 0, data[pts[i]:pts[i + 1]], fin=1 if i == k - 1 else 0,
+                            mask=(b"m%03d" % (i + n) if (i + k) % 2 else None)) for i in range(k)]
+                for api in ("rdf:0", "recvdata:0"):
+                    frag_sessions.append(({}, [("chunk", b"".join(f.enc() for f in frames))], [api] * 2))
+                    frag_meta.append((frames, api, op, data))
+    for (frames, api, op, data), (impl, model, ws, sock, line) in zip(frag_meta, rx.run_sessions(ctx, "session:fragmented", frag_sessions)):
+        outs = rx.results(impl)
+        ctx.case(key=line, nontrivial=True, cls=f"fragmented:api={api}:op={op}:frags={len(frames)}:empty-first={int(not frames[0].data)}")
+        want = (f"R:{op}:1:" if api == "rdf:0" else f"D:{op}:") + common.summarize(data)
+        if outs[0] != want or outs[1] != "X:CLOSED":
+            ctx.violate("frame-equals-rfc-decoding", "fragmented-message-wrong-opcode-or-payload" if not outs[0].startswith("X:") else
+                        "fragmented-message-" + outs[0][2:], {"op": line[:300], "frames": [f.desc() for f in frames], "api": api},
+                        [want, "X:CLOSED"], outs[:2], size=10 * len(frames) + len(data))
 
     # frames answered with PROTO: acceptable only if Spec.frameLegal rejects them both inside and outside a message
     lines = []
